@@ -112,13 +112,13 @@ fn programs(thorough: bool) -> Vec<Prog> {
         let c = vec![label("start"), mov(r16("ax"), imm(1)), print(PrintKind::Reg), z(ZeroOp::Hlt), mov(r16("ax"), imm(2)), print(PrintKind::Reg)];
         add("hlt", c, none(), false);
     }
+    // 11 input services sharing stdin with the prompt: the line after the prompt's answer belongs to the service
+    {
+        let mut c = vec![label("start"), mov(r8("ah"), imm(1)), int(0x21), mov(r8("dl"), r8("al")), mov(r8("ah"), imm(2)), int(0x21), mov(r16("dx"), imm(0x0040)), mov(direct(W::B, 0x0040), imm(4)), mov(r8("ah"), imm(0x0A)), int(0x21), print(PrintKind::MemRange(0x40, 0x47))];
+        finals(&mut c);
+        add("input", c, none(), false);
+    }
     if thorough {
-        // 11 input service sharing stdin with the prompt
-        {
-            let mut c = vec![label("start"), mov(r8("ah"), imm(1)), int(0x21), mov(r8("dl"), r8("al")), mov(r8("ah"), imm(2)), int(0x21)];
-            finals(&mut c);
-            add("input", c, none(), false);
-        }
         // 12 nested calls with explicit ret, repe cmps
         {
             let mut c = vec![
@@ -143,6 +143,9 @@ enum Mode {
     Interpreted,
     /// trap flag set by push/popf before the k-th instruction after `start`, cleared before the finals
     Trap(usize),
+    /// trap flag set before the k-th instruction and never cleared: the run ends on the driver's own
+    /// closing halt, which must not be prompted for
+    TrapStay(usize),
     /// INT 3 inserted before the k-th item after `start`
     Int3(usize),
     /// INT 3 before every instruction
@@ -187,6 +190,18 @@ fn with_mode(p: &Prog, m: Mode) -> Option<Program> {
             c2.extend(code[fin..].iter().cloned());
             code = c2;
         }
+        Mode::TrapStay(k) => {
+            if k >= n_after {
+                return None;
+            }
+            let at = s + 1 + k;
+            let mut c2: Vec<Item> = code[..at].to_vec();
+            c2.push(push(r16("ax")));
+            c2.extend(tf_set(0x0100));
+            c2.push(pop(r16("ax")));
+            c2.extend(code[at..].iter().cloned());
+            code = c2;
+        }
         Mode::Int3(k) => {
             if k > n_after {
                 return None;
@@ -212,7 +227,7 @@ fn with_mode(p: &Prog, m: Mode) -> Option<Program> {
 fn plain_twin_src(src: &str, m: Mode) -> String {
     match m {
         Mode::Interpreted => src.to_string(),
-        Mode::Trap(_) => src.replace("mov ax, 256\n", "mov ax, 0\n"),
+        Mode::Trap(_) | Mode::TrapStay(_) => src.replace("mov ax, 256\n", "mov ax, 0\n"),
         Mode::Int3(_) | Mode::Int3All => src.replace("int 3\n", "\n"),
     }
 }
@@ -330,6 +345,9 @@ pub fn run(tier: &Tier) -> i32 {
             if tier.thorough || k < 2 {
                 modes.push(Mode::Trap(k));
             }
+            if (tier.thorough && k % 2 == 0) || k == 0 || k + 4 == n_after {
+                modes.push(Mode::TrapStay(k));
+            }
         }
         for m in modes {
             if let Some(q) = with_mode(p, m) {
@@ -407,7 +425,7 @@ pub fn run(tier: &Tier) -> i32 {
             _ => {}
         }
         c.outcome(&format!("{:?}/{}", rr.stop, if res.is_none() { "conforms" } else { "differs" }));
-        let site = format!("{} / {}", p.name, match m { Mode::Interpreted => "-i", Mode::Trap(_) => "trap flag", Mode::Int3(_) | Mode::Int3All => "int 3" });
+        let site = format!("{} / {}", p.name, match m { Mode::Interpreted => "-i", Mode::Trap(_) | Mode::TrapStay(_) => "trap flag", Mode::Int3(_) | Mode::Int3All => "int 3" });
         report_cli(rep, &site, res, &src, &sc.lines, interpreted, &out, json!({"script": sc.what, "mode": format!("{:?}", m)}));
         // relational oracle on the default script: stepped output minus artefacts == plain output
         // (a program that reads stdin itself sees different input in the two runs: only the event oracle applies)
@@ -445,7 +463,7 @@ pub fn run(tier: &Tier) -> i32 {
     }
     let mut cov = Coverage::default();
     cov.exhaustive = true;
-    cov.rule = format!("{} terminating programs (straight line with short instructions at line ends, loop, call with implied ret, REP, prints, character output, conditional jump, macro use, stack/flags, hlt in the middle{}) x stepping modes (-i; trap flag set by POPF before the k-th instruction and cleared before the final dump; INT 3 before the k-th item; INT 3 before every instruction). For each (program, mode) the default script answers every read with 'n'; ALL scripts with at most {} deviations are run (alphabet: 3 alternative advancing answers, 13 non-advancing answers incl. print commands (also with ranges ending exactly at and one past the end of memory), empty line and garbage inserted before the 'n' (possibly repeatedly at the same prompt), 4 terminating answers followed by further lines that must not be read, and the end of input at that read; the second and later deviations use a reduced alphabet; for each (program, mode) the deviation bound is the largest one whose complete script set fits the per-pair budget, see bounds). Each run's stdout is matched event by event against the reference: one prompt per executed instruction naming its line, print commands answered from the reference state without advancing, quit / end of input terminate with exit status 0 within the watchdog and below the output cap. Relational oracle on every default script: output minus prompt artefacts equals the plain run of the same program (INT 3 lines blanked / TF word replaced by 0)", progs.len(), if tier.thorough { ", input service sharing stdin, nested calls with REPE CMPS" } else { "" }, d);
+    cov.rule = format!("{} terminating programs (straight line with short instructions at line ends, loop, call with implied ret, REP, prints, character output, conditional jump, macro use, stack/flags, hlt in the middle, input services sharing stdin with the prompt{}) x stepping modes (-i; trap flag set by POPF before the k-th instruction and cleared before the final dump, or never cleared so that the run ends on the driver's own closing halt; INT 3 before the k-th item; INT 3 before every instruction). For each (program, mode) the default script answers every read with 'n'; ALL scripts with at most {} deviations are run (alphabet: 3 alternative advancing answers, 13 non-advancing answers incl. print commands (also with ranges ending exactly at and one past the end of memory), empty line and garbage inserted before the 'n' (possibly repeatedly at the same prompt), 4 terminating answers followed by further lines that must not be read, and the end of input at that read; the second and later deviations use a reduced alphabet; for each (program, mode) the deviation bound is the largest one whose complete script set fits the per-pair budget, see bounds). Each run's stdout is matched event by event against the reference: one prompt per executed instruction naming its line, print commands answered from the reference state without advancing, quit / end of input terminate with exit status 0 within the watchdog and below the output cap. Relational oracle on every default script: output minus prompt artefacts equals the plain run of the same program (INT 3 lines blanked / TF word replaced by 0)", progs.len(), if tier.thorough { ", nested calls with REPE CMPS" } else { "" }, d);
     cov.bounds = json!({"programs": progs.len(), "program_mode_pairs": pm.len(), "scripts": work.len(), "max_deviations": d, "program_mode_pairs_explored_completely_to_0_1_2_3_deviations": depth_hist, "prompts_checked": prompts_checked.load(Ordering::Relaxed), "runs_ending_in_end_of_input": eof_runs.load(Ordering::Relaxed), "runs_ending_in_quit": quit_runs.load(Ordering::Relaxed), "relational_pairs": relational.load(Ordering::Relaxed), "binary_prompts_before_every_rep_iteration": rep_iter, "runs_of_programs_with_rep": rep_iter_mode.load(Ordering::Relaxed), "reads_per_pair_min_max": [reads_of.iter().min(), reads_of.iter().max()], "tier": tier.name()});
     cov.assumptions = common_assumptions();
     cov.assumptions.push("single-stepping a REP-prefixed instruction may show one prompt for the instruction or one prompt before every iteration (the 8086 trap flag traps after every iteration); both are accepted".into());
